@@ -173,6 +173,20 @@ class PoolSum(sp.Expr):
             return expr.doit()
         return expr
 
+    def _eval_subs(self, old, new, **hints):
+        # summation indices are bound symbols (compare sympy's ExprWithLimits)
+        if any(old == idx for idx, _ in self.indices):
+            return self
+        return None
+
+    def _xreplace(self, rule):
+        if self in rule:
+            return rule[self], True
+        bound_symbols = {idx for idx, _ in self.indices}
+        if any(key in bound_symbols for key in rule):
+            rule = {k: v for k, v in rule.items() if k not in bound_symbols}
+        return super()._xreplace(rule)
+
     def evaluate(self) -> sp.Expr:
         indices = {symbol: tuple(values) for symbol, values in self.indices}
         return sp.Add(*[
